@@ -1378,3 +1378,78 @@ func (c *Ctx) MapKeys(fnSpec, allowed string, min int, desc string) {
 	}
 	c.add("A", fnSpec, "mapkeys", desc, report.OK, fmt.Sprintf("%d accesses", n), c.fnPos(f))
 }
+
+// FreshPerIteration: argument idx of every call to callee in fn, a call that sits in a loop L, does not carry a
+// value over from an earlier iteration of L: walking back through joins (phi nodes and conversions, not through
+// calls) never reaches a join at L's header. An accumulator consumed once per iteration is therefore re-initialised
+// in each iteration.
+func (c *Ctx) FreshPerIteration(fnSpec, callee string, idx int, desc string) {
+	role := fmt.Sprintf("freshiter/%s/arg%d", callee, idx)
+	f := c.Fn(fnSpec)
+	if f == nil {
+		return
+	}
+	calls := c.sites(f, c.X(callee))
+	if len(calls) == 0 {
+		c.add("O", fnSpec, role, desc, report.Violated, "no call to "+callee, c.fnPos(f))
+		return
+	}
+	for _, call := range calls {
+		var head *ssa.BasicBlock
+		var body map[*ssa.BasicBlock]bool
+		for _, h := range f.Fn.Blocks {
+			bd, _ := NaturalLoop(h)
+			if bd == nil || !bd[call.Block()] {
+				continue
+			}
+			if body == nil || len(bd) < len(body) {
+				body, head = bd, h
+			}
+		}
+		if head == nil {
+			c.add("O", fnSpec, role, desc, report.Violated, "the call is not inside a loop", c.posOf(call))
+			return
+		}
+		var args []ssa.Value
+		if cc := call.Common(); cc.IsInvoke() {
+			args = append([]ssa.Value{cc.Value}, cc.Args...)
+		} else {
+			args = cc.Args
+		}
+		if idx >= len(args) {
+			c.add("O", fnSpec, role, desc, report.Violated, "no such argument", c.posOf(call))
+			return
+		}
+		seen := map[ssa.Value]bool{}
+		bad := false
+		var walk func(v ssa.Value)
+		walk = func(v ssa.Value) {
+			if seen[v] || bad {
+				return
+			}
+			seen[v] = true
+			switch x := v.(type) {
+			case *ssa.Phi:
+				if x.Block() == head {
+					bad = true
+					return
+				}
+				for _, e := range x.Edges {
+					walk(e)
+				}
+			case *ssa.ChangeType:
+				walk(x.X)
+			case *ssa.Convert:
+				walk(x.X)
+			case *ssa.MakeInterface:
+				walk(x.X)
+			}
+		}
+		walk(args[idx])
+		if bad {
+			c.add("O", fnSpec, role, desc, report.Violated, "the value is carried over from the previous iteration of the enclosing loop (not re-initialised per iteration)", c.posOf(call))
+			return
+		}
+	}
+	c.add("O", fnSpec, role, desc, report.OK, fmt.Sprintf("%d site(s)", len(calls)), c.posOf(calls[0]))
+}
